@@ -81,6 +81,7 @@ def case_sf(ctx, shape, nb, step):
     nbp = shape[1] / 4 if nb is None else nb
     xm = int(min(nbp, shape[1] / st - 1))
     rp = lambda m: replay_sf(m(phase), nb, step)
+    ctx.fallback = rp
     ctx.prove("length = min(nbOfPoint, shape[1]/step - 1)", [], z3.BoolVal(len(sf) == xm), replay=rp, axioms=False)
     want = sf_oracle(phase, len(sf), st)
     for j in range(len(sf)):
@@ -156,55 +157,69 @@ def case_tps(ctx, shape, lowdim=False):
     ns = shape[-1]
     ctx.encoded(tp.calc_slope_temporalps)
     ctx.bounds.update(shape=list(shape), slopes="symbolic real")
-    with npx.symbolic(tp):
-        mean_tps, tps_err = tp.calc_slope_temporalps(data)
-        mk, ek = tp.calc_slope_temporalps(core.obj(data * k))
-    ctx.paths += 1
-    mean_tps = numpy.asarray(mean_tps, dtype=object)
     rp = lambda m: replay_tps(numpy.asarray(m(data), dtype=float) if not lowdim else _lowdim_values(data, m))
-    F = npx.dft_axis(data, axis=-2)
-    half = int(n / 2)
-    want = numpy.empty(shape[:-2] + (half,), dtype=object)
-    sq = numpy.empty(shape[:-2] + (half, ns), dtype=object)
-    for idx in numpy.ndindex(*want.shape):
-        acc = Sym(0)
-        for s in range(ns):
-            v = Sym.lift(F[idx + (s,)]).abs2()
-            sq[idx + (s,)] = v
-            acc = acc + v
-        want[idx] = acc / ns
-    if mean_tps.shape != want.shape:
-        ctx.prove("output shape (..., n_frames/2)", [], z3.BoolVal(False), replay=rp, axioms=False)
-        return
-    ctx.prove("mean spectrum = sub-aperture mean of |DFT along frames|^2", [], all_eq(mean_tps, want), replay=rp, timeout_ms=60000)
-    ctx.prove("quadratic in amplitude", [z(k.re) > 0], all_eq(numpy.asarray(mk, dtype=object), mean_tps * k * k), replay=rp, timeout_ms=60000)
-    # error term: std over sub-apertures / sqrt(n_subaps):  err^2 * ns = population variance of |F|^2
-    terr = numpy.asarray(tps_err, dtype=object)
-    # split at the square-root cut-point: (1) the argument handed to sqrt is the population variance of |F|^2
-    # (pure polynomial identity), (2) err^2 * ns = (that sqrt)^2 and err >= 0 (only the sqrt axioms)
-    g1, g2 = [], []
-    for idx in numpy.ndindex(*want.shape):
-        var_ = Sym(0)
-        for s in range(ns):
-            d = sq[idx + (s,)] - want[idx]
-            var_ = var_ + d * d
-        var_ = var_ / ns
-        e = Sym.lift(terr[idx])
-        names = set()
-        core._consts(z(e.re), names)
-        roots = [nm for nm in names if nm.startswith("sq!") and St.sem.get(nm, ("",))[0] == "sqrt"
-                 and not z3.is_rational_value(z3.simplify(St.sem[nm][1]))]
-        if len(roots) != 1:
-            # no single square-root cut-point to split at (other code shape): the semantic statement in one query
-            g2 += eqs(e * e * ns, var_)
-            g2.append(z(e.re) >= 0)
+    ctx.fallback = rp
+
+    def go():
+        # under exploration: a decision the function takes on slope VALUES (e.g. treating all-zero columns apart) forks
+        with npx.symbolic(tp):
+            return tp.calc_slope_temporalps(data), tp.calc_slope_temporalps(core.obj(data * k))
+    paths, ex = core.run_paths(go, [z(k.re) > 0], max_paths=64)
+    ctx.explored(ex, len(paths))
+    first = None
+    for pi, pth in enumerate(paths):
+        hyp = list(pth.pc)
+        tag = "" if pi == 0 else " [path%d]" % pi
+        if pth.exc is not None:
+            ctx.prove("calc_slope_temporalps raises %s%s" % (type(pth.exc).__name__, tag), hyp, z3.BoolVal(False), replay=rp, axioms=False)
             continue
-        root = z3.Real(roots[0])
-        g1.append(St.sem[roots[0]][1] == z(var_.re))
-        g2.append(z(e.re) * z(e.re) * ns == root * root)
-        g2.append(z(e.re) >= 0)
-    ctx.prove("error term: the quantity under the square root is the variance over sub-apertures", [], conj(g1), replay=rp, timeout_ms=60000, axioms=False)
-    ctx.prove("error term = sqrt(variance) / sqrt(n_subaps)", [], conj(g2), replay=rp, timeout_ms=60000)
+        (mean_tps, tps_err), (mk, ek) = pth.out
+        if first is None:
+            first = numpy.asarray(mean_tps, dtype=object)
+        mean_tps = numpy.asarray(mean_tps, dtype=object)
+        F = npx.dft_axis(data, axis=-2)
+        half = int(n / 2)
+        want = numpy.empty(shape[:-2] + (half,), dtype=object)
+        sq = numpy.empty(shape[:-2] + (half, ns), dtype=object)
+        for idx in numpy.ndindex(*want.shape):
+            acc = Sym(0)
+            for s in range(ns):
+                v = Sym.lift(F[idx + (s,)]).abs2()
+                sq[idx + (s,)] = v
+                acc = acc + v
+            want[idx] = acc / ns
+        if mean_tps.shape != want.shape:
+            ctx.prove("output shape (..., n_frames/2)" + tag, hyp, z3.BoolVal(False), replay=rp, axioms=False)
+            continue
+        ctx.prove("mean spectrum = sub-aperture mean of |DFT along frames|^2" + tag, hyp, all_eq(mean_tps, want), replay=rp, timeout_ms=60000)
+        ctx.prove("quadratic in amplitude" + tag, hyp + [z(k.re) > 0], all_eq(numpy.asarray(mk, dtype=object), mean_tps * k * k), replay=rp, timeout_ms=60000)
+        # error term: std over sub-apertures / sqrt(n_subaps):  err^2 * ns = population variance of |F|^2
+        terr = numpy.asarray(tps_err, dtype=object)
+        # split at the square-root cut-point: (1) the argument handed to sqrt is the population variance of |F|^2
+        # (pure polynomial identity), (2) err^2 * ns = (that sqrt)^2 and err >= 0 (only the sqrt axioms)
+        g1, g2 = [], []
+        for idx in numpy.ndindex(*want.shape):
+            var_ = Sym(0)
+            for s in range(ns):
+                d = sq[idx + (s,)] - want[idx]
+                var_ = var_ + d * d
+            var_ = var_ / ns
+            e = Sym.lift(terr[idx])
+            names = set()
+            core._consts(z(e.re), names)
+            roots = [nm for nm in names if nm.startswith("sq!") and St.sem.get(nm, ("",))[0] == "sqrt"
+                     and not z3.is_rational_value(z3.simplify(St.sem[nm][1]))]
+            if len(roots) != 1:
+                # no single square-root cut-point to split at (other code shape): the semantic statement in one query
+                g2 += eqs(e * e * ns, var_)
+                g2.append(z(e.re) >= 0)
+                continue
+            root = z3.Real(roots[0])
+            g1.append(St.sem[roots[0]][1] == z(var_.re))
+            g2.append(z(e.re) * z(e.re) * ns == root * root)
+            g2.append(z(e.re) >= 0)
+        ctx.prove("error term: the quantity under the square root is the variance over sub-apertures" + tag, hyp, conj(g1), replay=rp, timeout_ms=60000, axioms=False)
+        ctx.prove("error term = sqrt(variance) / sqrt(n_subaps)" + tag, hyp, conj(g2), replay=rp, timeout_ms=60000)
     # a pure sinusoid at bin k0 peaks at bin k0
     amp = var("amp")
     for k0 in (range(1, half) if not lowdim else sorted({1, half - 1})):
@@ -227,7 +242,8 @@ def case_tps(ctx, shape, lowdim=False):
     else:
         dv = rand_real(rng_for("tps%s" % (shape,)), shape)
         asg = assign_of(data, dv)
-    ctx.validate("calc_slope_temporalps mean", evaluate(mean_tps, asg), lambda: tp.calc_slope_temporalps(dv.copy())[0])
+    if first is not None and len(paths) == 1:
+        ctx.validate("calc_slope_temporalps mean", evaluate(first, asg), lambda: tp.calc_slope_temporalps(dv.copy())[0])
 
 
 def _replay_sin(shape, k0, amp):
@@ -252,6 +268,7 @@ def case_axis(ctx, n):
     ctx.paths += 1
     want = numpy.array([fr * k / n for k in range(int(n / 2))], dtype=object)
     rp = lambda m: _replay_axis(n, m(fr))
+    ctx.fallback = rp
     ctx.prove("frequency axis = k*frame_rate/n_frames, k < n/2", pre, all_eq(ax, want) if ax.shape == want.shape else z3.BoolVal(False),
               replay=rp, witness_terms=dict(frame_rate=fr))
     # no shared state: an axis handed out earlier and edited by the caller does not change later axes
